@@ -493,11 +493,18 @@ TBulk ==
                              "BulkStreamExactlyOnce")
     /\ UNCHANGED <<idx, ver, hv, floor, cm, base, pend, maxRet, seen, maxRev, evlog, ws, rds, prefixes, cmax, expiring, chg, ttl>>
 
+\* C04 once around the real write-result ring (100000 slots; KubeBrain.tla explores the wrap with 3): afterwards the
+\* committed revision has reached the last revision handed out, and the last write is readable and was announced
+TWrap ==
+    /\ Is("WrapRun") /\ Adv
+    /\ viol' = viol \cup V(~E.panic /\ E.last_created /\ E.committed = E.last_hdr /\ E.listed_last /\ E.watched_last, "ResolvedAfterWrap")
+    /\ UNCHANGED <<idx, ver, hv, floor, cm, base, pend, maxRet, seen, maxRev, evlog, ws, rds, prefixes, cmax, expiring, chg, ttl>>
+
 TSkip ==
     /\ l <= Len(Trace) /\ E.e \in Skippable /\ Adv
     /\ UNCHANGED <<idx, ver, hv, floor, cm, base, pend, maxRet, seen, maxRev, evlog, ws, rds, prefixes, cmax, expiring, chg, ttl, viol>>
 
-TNext == TReset \/ TPanic \/ TParts \/ TBulk \/ TInitEv \/ TInvoke \/ TCommit \/ TNotify \/ TCommitted \/ TReturn
+TNext == TReset \/ TPanic \/ TParts \/ TBulk \/ TWrap \/ TInitEv \/ TInvoke \/ TCommit \/ TNotify \/ TCommitted \/ TReturn
          \/ TWatchInvoke \/ TWatchReturn \/ TRecv \/ TClosed \/ TQuiesce \/ TSkip
          \/ TRInvoke \/ TRReturn \/ TCInvoke \/ TCReturn \/ TDel \/ TExpect
 
@@ -526,6 +533,7 @@ M_ExpireWholly          == NoViol("ExpireWholly")
 M_ExpiryExpectation     == NoViol("ExpiryExpectation")
 M_UniqueRevision        == NoViol("UniqueRevision")
 M_NoPanic               == NoViol("NoPanic")
+M_ResolvedAfterWrap     == NoViol("ResolvedAfterWrap")
 M_FailedReturnsCurrent  == NoViol("FailedReturnsCurrent")
 M_BulkStreamExactlyOnce == NoViol("BulkStreamExactlyOnce")
 M_PartitionsTileInterval == NoViol("PartitionsTileInterval")
